@@ -73,6 +73,12 @@ func (x *Exec) call(fr *Frame, st *State, c *ssa.CallCommon, instr ssa.Instructi
 	name := shortCallee(c)
 	ord := fr.siteOrd("call:"+name, instr)
 	site := fmt.Sprintf("call:%s#%d", name, ord)
+	alt := ""
+	if d := strings.Index(name, "."); d > 0 {
+		if k, ok := fr.recvOrds[instr]; ok {
+			alt = fmt.Sprintf("call:%s.*#%d", name[:d], k)
+		}
+	}
 
 	var recv *Val
 	var callee *ssa.Function
@@ -126,7 +132,11 @@ func (x *Exec) call(fr *Frame, st *State, c *ssa.CallCommon, instr ssa.Instructi
 		av["recv"] = *recv
 		at["recv"] = c.Value.Type()
 	}
+	if alt != "" {
+		fr.altSite = "before:" + alt
+	}
 	x.atSite(fr, st, "before:"+site, -1, av, at)
+	fr.altSite = ""
 	var res Val
 	pureHere := false
 	if fr.ct != nil && fr.inlineTag == "" {
@@ -184,7 +194,9 @@ func (x *Exec) call(fr *Frame, st *State, c *ssa.CallCommon, instr ssa.Instructi
 	if !pureHere {
 		x.assumeGlobalInvs(fr, st)
 	}
+	fr.altSite = alt
 	x.atSite(fr, st, site, -1, ev, et)
+	fr.altSite = ""
 	return res
 }
 
@@ -413,6 +425,13 @@ func (x *Exec) applyContract(fr *Frame, st *State, ct *FuncContract, callee *ssa
 	for k, r := range ct.Requires {
 		ctx.src = r.Src
 		g, _ := ctx.evalText(r.Text)
+		if x.top != nil && x.top.ct != nil && x.top.ct.AssumePre {
+			// this unit only carries at-site obligations: the callee's precondition
+			// (a representation invariant of the wrappers) is assumed here
+			vc.assume(st.pc, g)
+			vc.usedAssumed["preconditions of callees are assumed (not checked) inside "+x.top.unit] = true
+			continue
+		}
 		vc.oblige(fmt.Sprintf("%s/pre@%s:%s", fr.unit, strings.TrimPrefix(site, "call:"), clauseID(r, k)), "pre", fr.unit, x.pos(pos), "precondition of "+ct.Key+": "+r.Text, st.pc, g)
 	}
 	// frame
@@ -527,7 +546,8 @@ func (x *Exec) havocLvalue(fr *Frame, st, pre *State, ct *FuncContract, mk func(
 	// ghost field: name(expr)
 	if i := strings.Index(m, "("); i > 0 && strings.HasSuffix(m, ")") {
 		name := strings.TrimSpace(m[:i])
-		if srt, ok := x.eng.ghostFields[name]; ok {
+		if g, srt, ok := x.eng.gfieldLookup(ct.PkgPath, name); ok {
+			name = g.Name
 			ctx := mk(pre, pre)
 			ctx.src = ct.Src
 			obj, _ := ctx.evalText(m[i+1 : len(m)-1])
@@ -667,7 +687,8 @@ func (e *Engine) modClauseKeys(vc *VC, ct *FuncContract, callee *ssa.Function, c
 	}
 	if i := strings.Index(m, "("); i > 0 && strings.HasSuffix(m, ")") {
 		name := strings.TrimSpace(m[:i])
-		if srt, ok := e.ghostFields[name]; ok {
+		if g, srt, ok := e.gfieldLookup(ct.PkgPath, name); ok {
+			name = g.Name
 			return []string{vc.ghostHeapKey(name, fmt.Sprintf("(Array Int %s)", srt))}, "", nil
 		}
 	}
@@ -1162,7 +1183,7 @@ func (x *Exec) atSite(fr *Frame, st *State, kind string, ord int, vals map[strin
 		return
 	}
 	for k, at := range fr.ct.Ats {
-		if at.Site != site {
+		if at.Site != site && !(fr.altSite != "" && at.Site == fr.altSite) {
 			// wildcard ordinal: kind#*
 			if !(strings.HasSuffix(at.Site, "#*") && strings.HasPrefix(site, strings.TrimSuffix(at.Site, "*")) && !strings.Contains(strings.TrimPrefix(site, strings.TrimSuffix(at.Site, "*")), "#")) {
 				continue
